@@ -300,6 +300,23 @@ fn check_day(rep: &mut Report, cx: &Cx, o: &Odo, prev: Option<&PlainDate>) -> Op
                 Out::Err(k, msg) => viol(rep, "C01.instant", "Instant try_new/to_string/from_str", "error", o, format!("Err({k}: {msg})"), "Ok".into()),
                 Out::Panic(..) => rep.inconclusive("C01.instant", "panic"),
             }
+            // the date as a zoned date-time in UTC (named zone and zero offset): midnight is k days from the epoch, and back
+            if o.k.abs() >= 99_999_990 || o.k % 61 == 0 {
+                for zone in ["UTC", "+00:00"] {
+                    let r = call(|| {
+                        let tz = temporal_rs::TimeZone::try_from_str(zone)?;
+                        let z = PlainDate::try_new(y, m, d, Calendar::default())?.to_zoned_date_time_with_provider(tz, None, &cx.prov)?;
+                        let back = z.to_plain_date_with_provider(&cx.prov)?;
+                        Ok((z.epoch_nanoseconds().as_i128(), back.iso_year(), back.iso_month(), back.iso_day()))
+                    });
+                    match r {
+                        Out::Ok(g) if g == (ns, y, m, d) => {}
+                        Out::Ok(g) => viol(rep, "C01.instant", "PlainDate::to_zoned_date_time(UTC)", "value", o, format!("{g:?}"), format!("({ns}, {y}, {m}, {d})")),
+                        Out::Err(k, msg) => viol(rep, "C01.instant", "PlainDate::to_zoned_date_time(UTC)", "error", o, format!("Err({k}: {msg})"), "Ok".into()),
+                        Out::Panic(..) => rep.inconclusive("C01.instant", "panic"),
+                    }
+                }
+            }
             // order of instants and date-times across midnight
             if let Some(p) = prev {
                 if o.k > -100_000_000 {
